@@ -7,7 +7,8 @@ Open Scope string_scope.
 
 (* (object file, symbol, size in bytes) of every object in a writable section *)
 Definition statics : list (string * string * N) := [
-  ("archive_read_support_format_tar.c", "decode_table", 128%N);
+  ("archive_read_support_format_lha.c", "crc16init", 4%N);
+  ("archive_read_support_format_lha.c", "crc16tbl", 1024%N);
   ("archive_version_details.c", "init", 4%N);
   ("archive_version_details.c", "mtx", 40%N);
   ("archive_version_details.c", "str", 24%N)
@@ -15,7 +16,8 @@ Definition statics : list (string * string * N) := [
 
 (* section each of them lives in (same order) *)
 Definition statics_sections : list string := [
-  ".bss.decode_table.0";
+  ".bss.crc16init.1";
+  ".bss.crc16tbl";
   ".bss.init.1";
   ".bss.mtx.2";
   ".bss.str.0"
